@@ -1,8 +1,10 @@
 import Ds.Oracle
 import DsProofs.AddProofs
 import DsProofs.AValProofs
+import DsProofs.Properties.C10
 import Mathlib.Data.List.Perm.Basic
 import Mathlib.Data.List.Count
+import Mathlib.Data.List.GetD
 
 /-!
 # OracleProofs — helper lemmas for property C09 (the Shapley oracle counts coalitions exactly)
@@ -341,5 +343,732 @@ theorem sum_map_ite_eq_length {α : Type} (l : List α) (P : α → Bool) :
     by_cases h : P x <;> simp [h, ih, List.filter_cons]; omega
 
 end Tally
+
+/-! ## 4. `addOnCandidate`, adder widths -/
+section AddOn
+variable {V : Type} [AddCommMonoid V]
+
+/-- every node stores `C` edge values -/
+def AdRect (C : ℕ) (L : List (Level V)) : Prop := ∀ lv ∈ L, ∀ nd ∈ lv, nd.adder.length = C
+
+def addOnNode (c : ℕ) (v : V) (nd : Node V) : Node V := { nd with adder := nd.adder.modify c (· + v) }
+
+theorem addOnCandidate_eq (d : Diagram V) (c : ℕ) (v : V) :
+    d.addOnCandidate c v = { d with levels := d.levels.map (fun lv => lv.map (addOnNode c v)) } := rfl
+
+theorem addOn_shape (L : List (Level V)) (c : ℕ) (v : V) :
+    SameShape L (L.map (fun lv => lv.map (addOnNode c v))) := by
+  unfold SameShape
+  rw [List.forall₂_map_right_iff]
+  apply forall₂_refl'
+  intro lv
+  rw [List.forall₂_map_right_iff]
+  apply forall₂_refl'
+  intro nd
+  exact ⟨rfl, rfl, by simp [addOnNode]⟩
+
+theorem eval_addOn (L : List (Level V)) (v : V) (j : ℕ) (as : List ℕ) (hw : wf 2 L j) (ha : AdRect 2 L)
+    (hC : ∀ a ∈ as, a < 2) (hl : as.length ≤ L.length) :
+    evalFrom (L.map (fun lv => lv.map (addOnNode 1 v))) j as =
+      evalFrom L j as + (as.map (fun a => if a = 1 then v else 0)).sum := by
+  induction L generalizing j as with
+  | nil => cases as with
+    | nil => simp [evalFrom]
+    | cons a as => simp at hl
+  | cons lv rest ih =>
+    cases as with
+    | nil => simp [evalFrom]
+    | cons a as =>
+      simp only [List.map_cons, evalFrom, List.sum_cons]
+      rw [nodeAt_map _ (by simp [addOnNode])]
+      have hj : j < lv.length := nodeAt_lt_of_active hw.1
+      have hnd : (nodeAt lv j).adder.length = 2 := by
+        rw [nodeAt_eq_getElem hj]; exact ha lv (by simp) _ (List.getElem_mem hj)
+      have hch : (addOnNode 1 v (nodeAt lv j)).ch a = (nodeAt lv j).ch a := rfl
+      have had : (addOnNode 1 v (nodeAt lv j)).ad a = (nodeAt lv j).ad a + (if a = 1 then v else 0) := by
+        simp only [addOnNode, Node.ad, getD_modify, hnd]
+        by_cases h1 : a = 1
+        · subst h1; simp
+        · have : ¬ (1 = a) := fun h => h1 h.symm
+          simp [h1, this]
+      rw [hch, had, ih _ as (hw.2 a (hC a (by simp))) (fun lv' h => ha lv' (by simp [h]))
+        (fun x hx => hC x (by simp [hx])) (by simpa using hl)]
+      exact add_add_add_comm _ _ _ _
+
+/-- `addOnCandidate 1 v` adds `v` once per argument equal to 1 -/
+theorem addOnCandidate_spec (d : Diagram V) (v : V) (hw : d.WF) (hC : d.C = 2) (ha : AdRect 2 d.levels) :
+    (d.addOnCandidate 1 v).WF ∧ (d.addOnCandidate 1 v).C = 2 ∧ (d.addOnCandidate 1 v).units = d.units ∧
+    ∀ as, as.length = d.units.length → (∀ a ∈ as, a < 2) →
+      (d.addOnCandidate 1 v).eval as = d.eval as + (as.map (fun a => if a = 1 then v else 0)).sum := by
+  rw [addOnCandidate_eq]
+  have hs := addOn_shape d.levels 1 v
+  refine ⟨⟨hs.length.symm.trans hw.len, hs.wf _ _ hw.reach⟩, hC, rfl, fun as hl hlt => ?_⟩
+  exact eval_addOn d.levels v d.root as (hC ▸ hw.reach) ha hlt (by rw [hw.len, hl])
+
+theorem sumLevel_adRect (C : ℕ) (la lb : Level V) (tbl pairs : List Pair) :
+    ∀ nd ∈ (sumLevel C la lb tbl pairs).2, nd.adder.length = C := by
+  induction pairs generalizing tbl with
+  | nil => simp [sumLevel]
+  | cons p ps ih =>
+    intro nd hnd
+    simp only [sumLevel, List.mem_cons] at hnd
+    rcases hnd with rfl | hnd
+    · simp
+    · exact ih _ nd hnd
+
+theorem sumLevels_adRect (C : ℕ) (LA LB : List (Level V)) (pairs : List Pair) :
+    AdRect C (sumLevels C LA LB pairs) := by
+  induction LA generalizing LB pairs with
+  | nil => intro lv h; simp [sumLevels] at h
+  | cons la ra ih =>
+    cases LB with
+    | nil => intro lv h; simp [sumLevels] at h
+    | cons lb rb =>
+      intro lv h
+      simp only [sumLevels, List.mem_cons] at h
+      rcases h with rfl | h
+      · exact sumLevel_adRect C la lb [] pairs
+      · exact ih rb _ lv h
+
+theorem blank_adder (C : ℕ) : (blank C : Node V).adder.length = C := by simp [blank]
+
+/-- the result of `sum` stores `C` values per node -/
+theorem sum_adRect (a b s : Diagram V) (h : a.sum b = .ok s) : AdRect a.C s.levels := by
+  rw [sum_eq] at h
+  split at h
+  · cases h
+  · simp only [Except.ok.injEq] at h
+    subst h
+    intro lv hlv nd hnd
+    simp only [List.mem_map] at hlv
+    obtain ⟨lv0, h0, rfl⟩ := hlv
+    simp only [padLevel, List.mem_append, List.mem_replicate] at hnd
+    rcases hnd with hnd | ⟨_, rfl⟩
+    · exact sumLevels_adRect _ _ _ _ lv0 h0 nd hnd
+    · exact blank_adder _
+
+end AddOn
+
+/-! ## 5. argument tuples (diagram order) and assignments (unit order) -/
+section Bridge
+
+theorem allArgs_two (n : ℕ) : allArgs 2 n = allAssign n := by
+  induction n with
+  | zero => rfl
+  | succ n ih => simp only [allArgs, allAssign, ih]; rfl
+
+theorem allAssign_succ (n : ℕ) :
+    allAssign (n + 1) = (allAssign n).map (0 :: ·) ++ (allAssign n).map (1 :: ·) := by
+  simp [allAssign]
+
+theorem mem_allAssign (n : ℕ) (a : List ℕ) : a ∈ allAssign n ↔ a.length = n ∧ ∀ x ∈ a, x < 2 := by
+  induction n generalizing a with
+  | zero =>
+    simp only [allAssign, List.mem_singleton, List.length_eq_zero_iff]
+    constructor
+    · rintro rfl; simp
+    · exact fun h => h.1
+  | succ n ih =>
+    rw [allAssign_succ]
+    simp only [List.mem_append, List.mem_map]
+    constructor
+    · rintro (⟨b, hb, rfl⟩ | ⟨b, hb, rfl⟩) <;>
+      · obtain ⟨h1, h2⟩ := (ih b).mp hb
+        refine ⟨by simp [h1], fun x hx => ?_⟩
+        rcases List.mem_cons.mp hx with rfl | hx
+        · omega
+        · exact h2 x hx
+    · rintro ⟨h1, h2⟩
+      cases a with
+      | nil => simp at h1
+      | cons x b =>
+        have hb : b ∈ allAssign n := (ih b).mpr ⟨by simpa using h1, fun y hy => h2 y (by simp [hy])⟩
+        have hx := h2 x (by simp)
+        have : x = 0 ∨ x = 1 := by omega
+        rcases this with rfl | rfl
+        · exact Or.inl ⟨b, hb, rfl⟩
+        · exact Or.inr ⟨b, hb, rfl⟩
+
+theorem nodup_allAssign (n : ℕ) : (allAssign n).Nodup := by
+  induction n with
+  | zero => simp [allAssign]
+  | succ n ih =>
+    rw [allAssign_succ, List.nodup_append]
+    refine ⟨ih.map (fun _ _ h => by simpa using h), ih.map (fun _ _ h => by simpa using h), ?_⟩
+    intro a ha b hb
+    simp only [List.mem_map] at ha hb
+    obtain ⟨_, _, rfl⟩ := ha
+    obtain ⟨_, _, rfl⟩ := hb
+    simp
+
+/-- the argument tuple (diagram order `us`) of the assignment `a` (unit order) -/
+def reorder (us : List ℕ) (a : List ℕ) : List ℕ := us.map (fun u => a.getD u 0)
+
+theorem getD_lt_two {a : List ℕ} (h : ∀ x ∈ a, x < 2) (u : ℕ) : a.getD u 0 < 2 := by
+  by_cases hu : u < a.length
+  · rw [List.getD_eq_getElem _ _ hu]; exact h _ (List.getElem_mem hu)
+  · rw [List.getD_eq_default _ _ (Nat.le_of_not_lt hu)]; omega
+
+theorem reorder_mem (us : List ℕ) (n : ℕ) (hl : us.length = n) (a : List ℕ) (ha : a ∈ allAssign n) :
+    reorder us a ∈ allAssign n := by
+  rw [mem_allAssign] at ha ⊢
+  refine ⟨by simp [reorder, hl], fun x hx => ?_⟩
+  simp only [reorder, List.mem_map] at hx
+  obtain ⟨u, _, rfl⟩ := hx
+  exact getD_lt_two ha.2 u
+
+theorem reorder_getD (us : List ℕ) (a : List ℕ) (u : ℕ) (hu : u ∈ us) :
+    (reorder us a).getD (us.idxOf u) 0 = a.getD u 0 := by
+  have hi : us.idxOf u < us.length := List.idxOf_lt_length_iff.mpr hu
+  rw [List.getD_eq_getElem _ _ (by simpa [reorder] using hi)]
+  simp [reorder]
+
+theorem perm_reorder (us : List ℕ) (n : ℕ) (hp : us.Perm (List.range n)) :
+    ((allAssign n).map (reorder us)).Perm (allAssign n) := by
+  have hl : us.length = n := by simpa using hp.length_eq
+  have hnd : us.Nodup := hp.nodup_iff.mpr List.nodup_range
+  have hmem : ∀ u, u ∈ us ↔ u < n := fun u => by rw [hp.mem_iff]; simp
+  rw [List.perm_ext_iff_of_nodup ?_ (nodup_allAssign n)]
+  · intro x
+    constructor
+    · intro hx
+      obtain ⟨a, ha, rfl⟩ := List.mem_map.mp hx
+      exact reorder_mem us n hl a ha
+    · intro hx
+      rw [List.mem_map]
+      have hx' := (mem_allAssign n x).mp hx
+      refine ⟨(List.range n).map (fun u => x.getD (us.idxOf u) 0), ?_, ?_⟩
+      · rw [mem_allAssign]
+        refine ⟨by simp, fun y hy => ?_⟩
+        obtain ⟨u, _, rfl⟩ := List.mem_map.mp hy
+        exact getD_lt_two hx'.2 _
+      · apply List.ext_getElem
+        · simp [reorder, hl, hx'.1]
+        · intro i h1 h2
+          have hi : i < us.length := by simpa [reorder] using h1
+          have hu : us[i] < n := (hmem _).mp (List.getElem_mem hi)
+          simp only [reorder, List.getElem_map]
+          rw [List.getD_eq_getElem _ _ (by simpa using hu)]
+          simp only [List.getElem_map, List.getElem_range]
+          rw [hnd.idxOf_getElem, List.getD_eq_getElem _ _ h2]
+  · apply List.Nodup.map_on _ (nodup_allAssign n)
+    intro a ha b hb hab
+    rw [mem_allAssign] at ha hb
+    simp only [reorder, List.map_inj_left] at hab
+    apply List.ext_getElem (ha.1.trans hb.1.symm)
+    intro i h1 h2
+    have := hab i ((hmem i).mpr (ha.1 ▸ h1))
+    rwa [List.getD_eq_getElem _ _ h1, List.getD_eq_getElem _ _ h2] at this
+
+theorem countP_reorder (us : List ℕ) (n : ℕ) (hp : us.Perm (List.range n)) (H : List ℕ → Bool) :
+    (allAssign n).countP H = (allAssign n).countP (fun a => H (reorder us a)) := by
+  rw [← (perm_reorder us n hp).countP_eq, List.countP_map]; rfl
+
+theorem reorder_perm (us : List ℕ) (n : ℕ) (hp : us.Perm (List.range n)) (a : List ℕ) (ha : a.length = n) :
+    (reorder us a).Perm a := by
+  have h1 : (reorder us a).Perm ((List.range n).map (fun u => a.getD u 0)) := hp.map _
+  have h2 : (List.range n).map (fun u => a.getD u 0) = a := by
+    apply List.ext_getElem (by simp [ha])
+    intro i h1 h2
+    simp only [List.getElem_map, List.getElem_range]
+    exact List.getD_eq_getElem _ _ h2
+  rw [h2] at h1; exact h1
+
+theorem reorder_set (us : List ℕ) (n : ℕ) (hp : us.Perm (List.range n)) (a : List ℕ) (ha : a.length = n)
+    (target : ℕ) (ht : target < n) :
+    (reorder us a).set (us.idxOf target) 1 = reorder us (a.set target 1) := by
+  have hnd : us.Nodup := hp.nodup_iff.mpr List.nodup_range
+  have hmem : ∀ u, u ∈ us ↔ u < n := fun u => by rw [hp.mem_iff]; simp
+  apply List.ext_getElem (by simp [reorder])
+  intro i h1 h2
+  have hi : i < us.length := by simpa [reorder] using h2
+  simp only [reorder, List.getElem_set, List.getElem_map]
+  by_cases h : us.idxOf target = i
+  · subst h
+    rw [if_pos rfl, List.getElem_idxOf]
+    rw [List.getD_eq_getElem _ _ (by simpa [ha] using ht)]
+    simp
+  · rw [if_neg h]
+    have hne : target ≠ us[i] := by
+      intro he; apply h; rw [he, hnd.idxOf_getElem]
+    simp only [List.getD_eq_getElem?_getD, List.getElem?_set_ne hne]
+
+/-- fixing one position to 0 -/
+theorem countP_insertIdx (idx n : ℕ) (h : idx ≤ n) (G : List ℕ → Bool) :
+    (allAssign n).countP (fun as => G (as.insertIdx idx 0)) =
+      (allAssign (n + 1)).countP (fun args => args.getD idx 1 == 0 && G args) := by
+  induction idx generalizing n G with
+  | zero =>
+    rw [allAssign_succ, List.countP_append, List.countP_map, List.countP_map]
+    simp [Function.comp_def]
+  | succ idx ih =>
+    cases n with
+    | zero => omega
+    | succ n =>
+      rw [allAssign_succ n, allAssign_succ (n + 1)]
+      simp only [List.countP_append, List.countP_map, Function.comp_def, List.insertIdx_succ_cons,
+        List.getD_cons_succ]
+      rw [ih n (by omega) (fun x => G (0 :: x)), ih n (by omega) (fun x => G (1 :: x)), allAssign_succ n]
+
+theorem insertIdx_one_eq_set (as : List ℕ) (idx : ℕ) (h : idx ≤ as.length) :
+    as.insertIdx idx 1 = (as.insertIdx idx 0).set idx 1 := by
+  induction as generalizing idx with
+  | nil => have : idx = 0 := by simpa using h
+           subst this; simp
+  | cons a as ih =>
+    cases idx with
+    | zero => simp
+    | succ idx => simp [ih idx (by simpa using h)]
+
+end Bridge
+
+/-! ## 6. unfolding `build` and `query` -/
+section Build
+variable {D : Dom}
+
+/-- rows within the boundary -/
+def incRows (R : ℕ) (dist : List Rat) (t : Option ℕ) : List ℕ :=
+  (List.range R).filter (fun tt => match t with | none => true | some t => dist.getD t 0 ≥ dist.getD tt 0)
+
+def withDiag (D : Dom) (c : ℕ) (labels : List ℕ) (base : Compiled (AVal D)) (inc : List ℕ) : Diagram (AVal D) :=
+  inc.foldl (fun d tt => d.update (base.locs.getD tt []) (tallyVal D 0 (onehot c (labels.getD tt 0)) (List.replicate c 0)) true) base.add
+
+def withoutDiag (D : Dom) (c : ℕ) (labels : List ℕ) (base : Compiled (AVal D)) (inc : List ℕ) : Diagram (AVal D) :=
+  inc.foldl (fun d tt => d.update (base.locs.getD tt []) (tallyVal D 0 (List.replicate c 0) (onehot c (labels.getD tt 0))) true) base.add
+
+def mkPair (D : Dom) (c : ℕ) (p : Prov.P) (labels : List ℕ) (dist : List Rat) (base : Compiled (AVal D))
+    (t : Option ℕ) : Except Err (Diagram (AVal D) × Diagram (AVal D)) :=
+  match t with
+  | none => pure (withDiag D c labels base (incRows p.data.length dist none),
+                  withoutDiag D c labels base (incRows p.data.length dist none))
+  | some t =>
+      (rowUnits (p.data.getD t [])).foldlM (fun (ds : Diagram (AVal D) × Diagram (AVal D)) u => do
+          let loc ← base.add.getUpdateLocation [(u, 0)]
+          pure (ds.1.update loc none false, ds.2.update loc none false))
+        (withDiag D c labels base (incRows p.data.length dist (some t)),
+         withoutDiag D c labels base (incRows p.data.length dist (some t)))
+
+theorem build_eq (c : ℕ) (p : Prov.P) (labels : List ℕ) (dist : List Rat) :
+    build D c p labels dist = (do
+      let base : Compiled (AVal D) ← compile p
+      let all ← ((List.range p.data.length).map some ++ [none]).mapM (mkPair D c p labels dist base)
+      pure { base := base, withs := all.map (·.1), withouts := all.map (·.2) }) := by
+  unfold build
+  congr 1
+  funext base
+  dsimp only
+  congr 2
+  funext t
+  cases t <;> rfl
+
+end Build
+end Ds.Oracle
+
+namespace Ds.Oracle
+open Ds.Dd
+section Build2
+variable {D : Dom}
+
+theorem mapM_ok {α β : Type} (f : α → Except Err β) (l : List α) (ys : List β) (h : l.mapM f = .ok ys) :
+    ys.length = l.length ∧ ∀ i (h1 : i < l.length) (h2 : i < ys.length), f l[i] = .ok ys[i] := by
+  induction l generalizing ys with
+  | nil =>
+    simp only [List.mapM_nil, pure, Except.pure, Except.ok.injEq] at h
+    subst h; simp
+  | cons a l ih =>
+    rw [List.mapM_cons] at h
+    cases hfa : f a with
+    | error e => rw [hfa] at h; cases h
+    | ok b =>
+      rw [hfa] at h
+      cases hl : List.mapM f l with
+      | error e => rw [hl] at h; cases h
+      | ok bs =>
+        rw [hl] at h
+        simp only [bind, Except.bind, pure, Except.pure, Except.ok.injEq] at h
+        subst h
+        obtain ⟨h1, h2⟩ := ih bs hl
+        refine ⟨by simp [h1], fun i hi1 hi2 => ?_⟩
+        cases i with
+        | zero => simpa using hfa
+        | succ i => simpa using h2 i (by simpa using hi1) (by simpa using hi2)
+
+theorem foldlM_ok {α σ γ : Type} (g : α → Except Err γ) (hfun : α → γ) (F : σ → γ → σ) (l : List α)
+    (hg : ∀ u ∈ l, g u = .ok (hfun u)) (init : σ) :
+    l.foldlM (fun s u => do let loc ← g u; pure (F s loc)) init = .ok (l.foldl (fun s u => F s (hfun u)) init) := by
+  induction l generalizing init with
+  | nil => rfl
+  | cons a l ih =>
+    rw [List.foldlM_cons, hg a (by simp)]
+    simp only [bind, Except.bind, pure, Except.pure]
+    exact ih (fun u hu => hg u (by simp [hu])) _
+
+/-- the value-`v` edges of all active nodes of the level of unit `u` -/
+def unitLoc {V : Type} (d : Diagram V) (u v : ℕ) : List (ℕ × ℕ × ℕ) :=
+  ((List.range (d.levels.getD (d.units.idxOf u) []).length).filter
+    (fun j => (nodeAt (d.levels.getD (d.units.idxOf u) []) j).active)).map (fun j => (d.units.idxOf u, j, v))
+
+theorem getUpdateLocation_single {V : Type} [Add V] [Zero V] (d : Diagram V) (u v : ℕ) (hu : u ∈ d.units) :
+    d.getUpdateLocation [(u, v)] = .ok (unitLoc d u v) := by
+  have hi : d.units.idxOf u < d.units.length := List.idxOf_lt_length_iff.mpr hu
+  unfold Diagram.getUpdateLocation
+  simp only [List.any_cons, List.any_nil, Bool.or_false, List.contains_iff_mem, hu, decide_true, Bool.not_true,
+    Bool.false_eq_true, if_false, List.mergeSort_singleton]
+  simp only [Diagram.getUpdateLocation.walk, Diagram.getUpdateLocation.skip, List.getElem?_eq_getElem hi,
+    List.getElem_idxOf hi, beq_self_eq_true, if_true]
+  rw [if_neg (by simp [hu])]
+  rfl
+
+end Build2
+end Ds.Oracle
+
+namespace Ds.Oracle
+open Ds.Dd
+section Spec
+
+/-- `LocSpec`: the `Prop` behind the executable check `locSpecOk` -/
+structure LocSpec {V : Type} (p : Prov.P) (cmp : Compiled V) : Prop where
+  nodup : ∀ loc ∈ cmp.locs, loc.Nodup
+  inRange : ∀ loc ∈ cmp.locs, ∀ e ∈ loc,
+    e.1 < cmp.add.levels.length ∧ e.2.1 < (cmp.add.levels.getD e.1 []).length ∧ e.2.2 < cmp.add.C
+  crossed : ∀ args ∈ allAssign cmp.add.units.length, ∀ r, r < p.data.length →
+    ((pathEdges cmp.add.levels cmp.add.root args 0).filter (fun e => (cmp.locs.getD r []).contains e)).length =
+      if (rowLits (p.data.getD r [])).all (fun uv => args.getD (cmp.add.units.idxOf uv.1) 0 == uv.2) then 1 else 0
+
+/-- conjunctive provenance with positive literals: one disjunct per row; every literal that names a unit names
+a unit `< nUnits` with candidate 1; the units of a row are pairwise distinct -/
+def Conjunctive (p : Prov.P) : Prop :=
+  p.nDisj = 1 ∧ ∀ r ∈ p.data,
+    (∀ l ∈ r.getD 0 [], l.1 ≠ -1 → l.2 = 1 ∧ 0 ≤ l.1 ∧ l.1 < (p.nUnits : Int)) ∧ (rowUnits r).Nodup
+
+instance (p : Prov.P) : Decidable (Conjunctive p) := by unfold Conjunctive; infer_instance
+
+theorem Conjunctive.rowLits {p : Prov.P} (hc : Conjunctive p) (r : Prov.Row) (hr : r ∈ p.data) :
+    rowLits r = (rowUnits r).map (fun u => (u, 1)) ∧ ∀ u ∈ rowUnits r, u < p.nUnits := by
+  obtain ⟨h1, _⟩ := hc.2 r hr
+  constructor
+  · unfold Oracle.rowLits rowUnits
+    rw [List.map_map]
+    have : (r.getD 0 []).filter (fun l => l.1 != -1 && l.2 != -1) = (r.getD 0 []).filter (fun l => l.1 != -1) := by
+      apply List.filter_congr
+      intro l hl
+      by_cases h : l.1 = -1
+      · simp [h]
+      · have := (h1 l hl h).1
+        simp [h, this]
+    rw [this]
+    apply List.map_congr_left
+    intro l hl
+    rw [List.mem_filter] at hl
+    have := (h1 l hl.1 (by simpa using hl.2)).1
+    simp [this]
+  · intro u hu
+    unfold rowUnits at hu
+    rw [List.mem_map] at hu
+    obtain ⟨l, hl, rfl⟩ := hu
+    rw [List.mem_filter] at hl
+    have := (h1 l hl.1 (by simpa using hl.2)).2
+    omega
+
+theorem getD_mem_data (p : Prov.P) (r : ℕ) (h : r < p.data.length) : p.data.getD r [] ∈ p.data := by
+  rw [List.getD_eq_getElem _ _ h]; exact List.getElem_mem h
+
+/-- row `r` is present under the assignment `a` (unit order) -/
+def present (p : Prov.P) (a : List ℕ) (r : ℕ) : Bool :=
+  (rowUnits (p.data.getD r [])).all (fun u => a.getD u 0 == 1)
+
+theorem presentRows_eq (p : Prov.P) (a : List ℕ) :
+    presentRows p a = (List.range p.data.length).filter (present p a) := rfl
+
+/-- in diagram order -/
+theorem present_reorder {p : Prov.P} (hc : Conjunctive p) (us : List ℕ) (hp : us.Perm (List.range p.nUnits))
+    (a : List ℕ) (r : ℕ) (hr : r < p.data.length) :
+    (rowLits (p.data.getD r [])).all (fun uv => (reorder us a).getD (us.idxOf uv.1) 0 == uv.2) = present p a r := by
+  obtain ⟨h1, h2⟩ := hc.rowLits _ (getD_mem_data p r hr)
+  rw [h1, List.all_map]
+  unfold present
+  rw [Bool.eq_iff_iff]
+  simp only [List.all_eq_true, Function.comp]
+  constructor
+  · intro h u hu
+    rw [← reorder_getD us a u (by rw [hp.mem_iff]; simpa using h2 u hu)]; exact h u hu
+  · intro h u hu
+    rw [reorder_getD us a u (by rw [hp.mem_iff]; simpa using h2 u hu)]; exact h u hu
+
+end Spec
+
+/-! ## 7. the diagrams built by `ShapleyOracle.__init__` -/
+section Built
+
+theorem inRange_of_adRect {V : Type} [AddCommMonoid V] (L : List (Level V)) (C : ℕ) (ha : AdRect C L)
+    (e : ℕ × ℕ × ℕ) (h1 : e.1 < L.length) (h2 : e.2.1 < (L.getD e.1 []).length) (h3 : e.2.2 < C) :
+    inRange L e := by
+  refine ⟨h1, h2, ?_⟩
+  rw [nodeAt_eq_getElem h2, ha (L.getD e.1 []) (by rw [List.getD_eq_getElem _ _ h1]; exact List.getElem_mem h1) _
+    (List.getElem_mem h2)]
+  exact h3
+
+theorem getD_nil_or_mem {α : Type} (l : List (List α)) (i : ℕ) : l.getD i [] = [] ∨ l.getD i [] ∈ l := by
+  by_cases h : i < l.length
+  · right; rw [List.getD_eq_getElem _ _ h]; exact List.getElem_mem h
+  · left; exact List.getD_eq_default _ _ (Nat.le_of_not_lt h)
+
+/-- what the main theorem needs to know about the compiled diagram -/
+structure BaseOK {D : Dom} (p : Prov.P) (base : Compiled (AVal D)) : Prop where
+  wf : base.add.WF
+  ad : AdRect 2 base.add.levels
+  C2 : base.add.C = 2
+  perm : base.add.units.Perm (List.range p.nUnits)
+  zero : ∀ args, base.add.eval args = 0
+  loc : LocSpec p base
+
+variable {D : Dom} {p : Prov.P} {base : Compiled (AVal D)}
+
+theorem BaseOK.len (H : BaseOK p base) : base.add.units.length = p.nUnits := by
+  simpa using H.perm.length_eq
+
+theorem BaseOK.mem_units (H : BaseOK p base) (u : ℕ) : u ∈ base.add.units ↔ u < p.nUnits := by
+  rw [H.perm.mem_iff]; simp
+
+theorem BaseOK.locs_nodup (H : BaseOK p base) (tt : ℕ) : (base.locs.getD tt []).Nodup := by
+  rcases getD_nil_or_mem base.locs tt with h | h
+  · rw [h]; exact List.nodup_nil
+  · exact H.loc.nodup _ h
+
+theorem BaseOK.locs_inRange (H : BaseOK p base) (tt : ℕ) : ∀ e ∈ base.locs.getD tt [], inRange base.add.levels e := by
+  rcases getD_nil_or_mem base.locs tt with h | h
+  · rw [h]; simp
+  · intro e he
+    obtain ⟨h1, h2, h3⟩ := H.loc.inRange _ h e he
+    exact inRange_of_adRect _ 2 H.ad e h1 h2 (H.C2 ▸ h3)
+
+theorem BaseOK.crossed (H : BaseOK p base) (hc : Conjunctive p) (a : List ℕ) (ha : a ∈ allAssign p.nUnits)
+    (r : ℕ) (hr : r < p.data.length) :
+    (pathEdges base.add.levels base.add.root (reorder base.add.units a) 0).countP
+        (fun e => decide (e ∈ base.locs.getD r [])) = if present p a r then 1 else 0 := by
+  have h := H.loc.crossed (reorder base.add.units a)
+    (by rw [H.len]; exact reorder_mem _ _ H.len a ha) r hr
+  rw [present_reorder hc _ H.perm a r hr] at h
+  rw [← h, List.countP_eq_length_filter]
+  congr 2
+  funext e
+  simp
+
+theorem sum_onehot (l : List ℕ) (lab : ℕ → ℕ) (k : ℕ) :
+    (l.map (fun tt => if k = lab tt then 1 else 0)).sum = (l.filter (fun r => lab r == k)).length := by
+  induction l with
+  | nil => simp
+  | cons x l ih =>
+    simp only [List.map_cons, List.sum_cons, ih, List.filter_cons, beq_iff_eq]
+    by_cases h : lab x = k
+    · rw [if_pos h.symm, if_pos h]; simp; omega
+    · rw [if_neg (fun h' => h h'.symm), if_neg h]; simp
+
+/-- the `with` diagram: value of an assignment = tally of the labels of the present rows among `inc` -/
+theorem withDiag_eval {N K c : ℕ} {base : Compiled (AVal (Dom.tally N K c))} (H : BaseOK p base) (hc : Conjunctive p)
+    (labels : List ℕ) (inc : List ℕ) (hinc : ∀ tt ∈ inc, tt < p.data.length) (a : List ℕ) (ha : a ∈ allAssign p.nUnits) :
+    Sim base.add (withDiag (Dom.tally N K c) c labels base inc) ∧
+    (withDiag (Dom.tally N K c) c labels base inc).eval (reorder base.add.units a) =
+      AVal.clip (Dom.tally N K c) (tvf c 0
+        (fun k => ((inc.filter (present p a)).filter (fun r => labels.getD r 0 == k)).length) (fun _ => 0)) := by
+  obtain ⟨h1, h2⟩ := eval_foldl_inc base.add (fun tt => base.locs.getD tt [])
+    (fun tt => tallyVal (Dom.tally N K c) 0 (onehot c (labels.getD tt 0)) (List.replicate c 0)) inc
+    (fun tt _ => H.locs_nodup tt) (fun tt _ => H.locs_inRange tt) base.add (Sim.refl _) (reorder base.add.units a)
+  refine ⟨h1, ?_⟩
+  unfold withDiag
+  rw [h2, H.zero, zero_add]
+  have : inc.map (fun tt => ((pathEdges base.add.levels base.add.root (reorder base.add.units a) 0).countP
+      (fun e => decide (e ∈ base.locs.getD tt []))) •
+        tallyVal (Dom.tally N K c) 0 (onehot c (labels.getD tt 0)) (List.replicate c 0)) =
+      inc.map (fun tt => if present p a tt then
+        AVal.clip (Dom.tally N K c) (tvf c 0 (fun k => if k = labels.getD tt 0 then 1 else 0) (fun _ => 0)) else 0) := by
+    apply List.map_congr_left
+    intro tt htt
+    rw [H.crossed hc a ha tt (hinc tt htt), tallyVal_with]
+    by_cases hp : present p a tt = true
+    · rw [if_pos hp, if_pos hp, one_nsmul]
+    · rw [if_neg hp, if_neg hp, zero_nsmul]
+  rw [this, sum_map_ite_filter, sum_clip_tvf]
+  congr 2
+  · simp
+  · funext k; exact sum_onehot _ _ k
+  · funext k; simp
+
+theorem withoutDiag_eval {N K c : ℕ} {base : Compiled (AVal (Dom.tally N K c))} (H : BaseOK p base) (hc : Conjunctive p)
+    (labels : List ℕ) (inc : List ℕ) (hinc : ∀ tt ∈ inc, tt < p.data.length) (a : List ℕ) (ha : a ∈ allAssign p.nUnits) :
+    Sim base.add (withoutDiag (Dom.tally N K c) c labels base inc) ∧
+    (withoutDiag (Dom.tally N K c) c labels base inc).eval (reorder base.add.units a) =
+      AVal.clip (Dom.tally N K c) (tvf c 0 (fun _ => 0)
+        (fun k => ((inc.filter (present p a)).filter (fun r => labels.getD r 0 == k)).length)) := by
+  obtain ⟨h1, h2⟩ := eval_foldl_inc base.add (fun tt => base.locs.getD tt [])
+    (fun tt => tallyVal (Dom.tally N K c) 0 (List.replicate c 0) (onehot c (labels.getD tt 0))) inc
+    (fun tt _ => H.locs_nodup tt) (fun tt _ => H.locs_inRange tt) base.add (Sim.refl _) (reorder base.add.units a)
+  refine ⟨h1, ?_⟩
+  unfold withoutDiag
+  rw [h2, H.zero, zero_add]
+  have : inc.map (fun tt => ((pathEdges base.add.levels base.add.root (reorder base.add.units a) 0).countP
+      (fun e => decide (e ∈ base.locs.getD tt []))) •
+        tallyVal (Dom.tally N K c) 0 (List.replicate c 0) (onehot c (labels.getD tt 0))) =
+      inc.map (fun tt => if present p a tt then
+        AVal.clip (Dom.tally N K c) (tvf c 0 (fun _ => 0) (fun k => if k = labels.getD tt 0 then 1 else 0)) else 0) := by
+    apply List.map_congr_left
+    intro tt htt
+    rw [H.crossed hc a ha tt (hinc tt htt), tallyVal_without]
+    by_cases hp : present p a tt = true
+    · rw [if_pos hp, if_pos hp, one_nsmul]
+    · rw [if_neg hp, if_neg hp, zero_nsmul]
+  rw [this, sum_map_ite_filter, sum_clip_tvf]
+  congr 2
+  · simp
+  · funext k; simp
+  · funext k; exact sum_onehot _ _ k
+
+end Built
+
+section Boundary
+
+theorem unitLoc_nodup {V : Type} (d : Diagram V) (u v : ℕ) : (unitLoc d u v).Nodup := by
+  unfold unitLoc
+  apply List.Nodup.map
+  · intro a b h; simpa using h
+  · exact List.nodup_range.filter _
+
+theorem unitLoc_inRange {V : Type} [AddCommMonoid V] (d : Diagram V) (u v : ℕ) (hw : d.WF) (hu : u ∈ d.units)
+    (ha : AdRect d.C d.levels) (hv : v < d.C) : ∀ e ∈ unitLoc d u v, inRange d.levels e := by
+  intro e he
+  unfold unitLoc at he
+  simp only [List.mem_map, List.mem_filter, List.mem_range] at he
+  obtain ⟨j, ⟨hj, _⟩, rfl⟩ := he
+  have hi : d.units.idxOf u < d.units.length := List.idxOf_lt_length_iff.mpr hu
+  exact inRange_of_adRect _ _ ha _ (by rw [hw.len]; exact hi) hj hv
+
+/-- a path crosses a value-0 edge of unit `u`'s level iff the argument of `u` is 0 -/
+theorem cross_unitLoc {V : Type} [AddCommMonoid V] (d : Diagram V) (u : ℕ) (hw : d.WF) (hu : u ∈ d.units)
+    (args : List ℕ) (hl : args.length = d.units.length) (hC : ∀ x ∈ args, x < d.C) :
+    (∃ e ∈ pathEdges d.levels d.root args 0, e ∈ unitLoc d u 0) ↔ args.getD (d.units.idxOf u) 0 = 0 := by
+  have hi : d.units.idxOf u < d.units.length := List.idxOf_lt_length_iff.mpr hu
+  constructor
+  · rintro ⟨e, he, hloc⟩
+    obtain ⟨k, h1, _, h3, _⟩ := mem_pathEdges he hw.reach hC
+    unfold unitLoc at hloc
+    simp only [List.mem_map, List.mem_filter, List.mem_range] at hloc
+    obtain ⟨j, _, rfl⟩ := hloc
+    simp only at h1 h3
+    rw [Nat.zero_add] at h1
+    rw [h1, List.getD_eq_getElem?_getD, h3]; rfl
+  · intro h0
+    obtain ⟨jk, hjk⟩ := exists_pathEdge d.levels d.root args 0 (d.units.idxOf u) (by rw [hw.len]; exact hi)
+      (by rw [hl]; exact hi)
+    rw [h0, Nat.zero_add] at hjk
+    refine ⟨_, hjk, ?_⟩
+    obtain ⟨k, h1, _, _, h4⟩ := mem_pathEdges hjk hw.reach hC
+    simp only [Nat.zero_add] at h1 h4
+    subst h1
+    unfold unitLoc
+    simp only [List.mem_map, List.mem_filter, List.mem_range]
+    exact ⟨jk, ⟨nodeAt_lt_of_active h4, h4⟩, rfl⟩
+
+theorem foldl_pair {α β γ : Type} (F : α → γ → α) (G : β → γ → β) (l : List γ) (x : α) (y : β) :
+    l.foldl (fun (ds : α × β) u => (F ds.1 u, G ds.2 u)) (x, y) = (l.foldl F x, l.foldl G y) := by
+  induction l generalizing x y with
+  | nil => rfl
+  | cons a l ih => simp [ih]
+
+/-- the boundary row is present -/
+def okB (p : Prov.P) (a : List ℕ) : Option ℕ → Bool
+  | none => true
+  | some b => present p a b
+
+variable {p : Prov.P} {N K c : ℕ} {base : Compiled (AVal (Dom.tally N K c))}
+
+/-- setting the value-0 edges of the units of row `b` to the invalid value -/
+theorem boundary_eval (H : BaseOK p base) (hc : Conjunctive p) (b : ℕ) (hb : b < p.data.length)
+    (d : Diagram (AVal (Dom.tally N K c))) (hs : Sim base.add d) (a : List ℕ) (ha : a ∈ allAssign p.nUnits) :
+    Sim base.add ((rowUnits (p.data.getD b [])).foldl (fun d u => d.update (unitLoc base.add u 0) none false) d) ∧
+    ((rowUnits (p.data.getD b [])).foldl (fun d u => d.update (unitLoc base.add u 0) none false) d).eval
+        (reorder base.add.units a) =
+      if present p a b then d.eval (reorder base.add.units a) else none := by
+  have hrow := (hc.rowLits _ (getD_mem_data p b hb)).2
+  have hmem : ∀ u ∈ rowUnits (p.data.getD b []), u ∈ base.add.units := fun u hu => (H.mem_units u).mpr (hrow u hu)
+  have hargs := (mem_allAssign _ _).mp (reorder_mem _ _ H.len a ha)
+  have := eval_foldl_none base.add ((rowUnits (p.data.getD b [])).map (fun u => unitLoc base.add u 0))
+    (by intro loc hloc; obtain ⟨u, _, rfl⟩ := List.mem_map.mp hloc; exact unitLoc_nodup _ _ _)
+    (by intro loc hloc; obtain ⟨u, hu, rfl⟩ := List.mem_map.mp hloc
+        exact unitLoc_inRange _ _ _ H.wf (hmem u hu) (H.C2 ▸ H.ad) (by rw [H.C2]; omega))
+    d hs (reorder base.add.units a)
+  rw [List.foldl_map] at this
+  refine ⟨this.1, ?_⟩
+  rw [this.2]
+  have hiff : (∃ loc ∈ (rowUnits (p.data.getD b [])).map (fun u => unitLoc base.add u 0),
+      ∃ e ∈ pathEdges base.add.levels base.add.root (reorder base.add.units a) 0, e ∈ loc) ↔ ¬ (present p a b = true) := by
+    unfold present
+    simp only [List.mem_map, List.all_eq_true, beq_iff_eq, not_forall]
+    constructor
+    · rintro ⟨loc, ⟨u, hu, rfl⟩, hx⟩
+      have := (cross_unitLoc base.add u H.wf (hmem u hu) _ (hargs.1.trans H.len.symm)
+        (by rw [H.C2]; exact hargs.2)).mp hx
+      rw [reorder_getD _ _ _ (hmem u hu)] at this
+      exact ⟨u, hu, by omega⟩
+    · rintro ⟨u, hu, hne⟩
+      refine ⟨_, ⟨u, hu, rfl⟩, ?_⟩
+      apply (cross_unitLoc base.add u H.wf (hmem u hu) _ (hargs.1.trans H.len.symm)
+        (by rw [H.C2]; exact hargs.2)).mpr
+      rw [reorder_getD _ _ _ (hmem u hu)]
+      have := getD_lt_two ((mem_allAssign _ _).mp ha).2 u
+      omega
+  by_cases hp : present p a b = true
+  · rw [if_neg (fun h => hiff.mp h hp), if_pos hp]
+  · rw [if_pos (hiff.mpr hp), if_neg hp]
+
+/-- the pair of diagrams built for boundary `t` -/
+theorem mkPair_spec (H : BaseOK p base) (hc : Conjunctive p) (labels : List ℕ) (dist : List Rat) (t : Option ℕ)
+    (ht : ∀ b, t = some b → b < p.data.length) (w wo : Diagram (AVal (Dom.tally N K c)))
+    (h : mkPair (Dom.tally N K c) c p labels dist base t = .ok (w, wo)) :
+    Sim base.add w ∧ Sim base.add wo ∧ ∀ a ∈ allAssign p.nUnits,
+      w.eval (reorder base.add.units a) =
+        (if okB p a t then AVal.clip (Dom.tally N K c) (tvf c 0
+          (fun k => (((incRows p.data.length dist t).filter (present p a)).filter (fun r => labels.getD r 0 == k)).length)
+          (fun _ => 0)) else none) ∧
+      wo.eval (reorder base.add.units a) =
+        (if okB p a t then AVal.clip (Dom.tally N K c) (tvf c 0 (fun _ => 0)
+          (fun k => (((incRows p.data.length dist t).filter (present p a)).filter (fun r => labels.getD r 0 == k)).length))
+          else none) := by
+  have hinc : ∀ tt ∈ incRows p.data.length dist t, tt < p.data.length := by
+    intro tt htt; unfold incRows at htt; rw [List.mem_filter] at htt; simpa using htt.1
+  cases t with
+  | none =>
+    simp only [mkPair, pure, Except.pure, Except.ok.injEq, Prod.mk.injEq] at h
+    obtain ⟨rfl, rfl⟩ := h
+    refine ⟨?_, ?_, fun a ha => ⟨?_, ?_⟩⟩
+    · exact (withDiag_eval H hc labels _ hinc (List.replicate p.nUnits 0)
+        ((mem_allAssign _ _).mpr ⟨by simp, by simp⟩)).1
+    · exact (withoutDiag_eval H hc labels _ hinc (List.replicate p.nUnits 0)
+        ((mem_allAssign _ _).mpr ⟨by simp, by simp⟩)).1
+    · simp only [okB, if_true]; exact (withDiag_eval H hc labels _ hinc a ha).2
+    · simp only [okB, if_true]; exact (withoutDiag_eval H hc labels _ hinc a ha).2
+  | some b =>
+    have hb := ht b rfl
+    have hrow := (hc.rowLits _ (getD_mem_data p b hb)).2
+    have hmem : ∀ u ∈ rowUnits (p.data.getD b []), u ∈ base.add.units := fun u hu => (H.mem_units u).mpr (hrow u hu)
+    unfold mkPair at h
+    simp only at h
+    rw [foldlM_ok (fun u => base.add.getUpdateLocation [(u, 0)]) (fun u => unitLoc base.add u 0)
+      (fun (ds : Diagram (AVal (Dom.tally N K c)) × Diagram (AVal (Dom.tally N K c))) loc =>
+        (ds.1.update loc none false, ds.2.update loc none false)) _
+      (fun u hu => getUpdateLocation_single base.add u 0 (hmem u hu))] at h
+    rw [foldl_pair (fun (d : Diagram (AVal (Dom.tally N K c))) u => d.update (unitLoc base.add u 0) none false)
+      (fun (d : Diagram (AVal (Dom.tally N K c))) u => d.update (unitLoc base.add u 0) none false)] at h
+    simp only [Except.ok.injEq, Prod.mk.injEq] at h
+    obtain ⟨rfl, rfl⟩ := h
+    have z : List.replicate p.nUnits 0 ∈ allAssign p.nUnits := (mem_allAssign _ _).mpr ⟨by simp, by simp⟩
+    refine ⟨?_, ?_, fun a ha => ⟨?_, ?_⟩⟩
+    · exact (boundary_eval H hc b hb _ (withDiag_eval H hc labels _ hinc _ z).1 _ z).1
+    · exact (boundary_eval H hc b hb _ (withoutDiag_eval H hc labels _ hinc _ z).1 _ z).1
+    · rw [(boundary_eval H hc b hb _ (withDiag_eval H hc labels _ hinc _ z).1 a ha).2,
+        (withDiag_eval H hc labels _ hinc a ha).2]; rfl
+    · rw [(boundary_eval H hc b hb _ (withoutDiag_eval H hc labels _ hinc _ z).1 a ha).2,
+        (withoutDiag_eval H hc labels _ hinc a ha).2]; rfl
+
+end Boundary
 
 end Ds.Oracle
